@@ -240,7 +240,9 @@ pub fn run(ctx: &Ctx) -> Report {
                     for n in 1..=fallible {
                         let mut wf = h.clone();
                         wf.faults = vec![Fault::HsmFailAt { op: i, call: n }];
-                        wf.note = format!("{} fault HsmFailAt op={i} call={n}", w.note);
+                        // the failing key returns its own error type, or one of the library's error values
+                        wf.knobs.hsm_err_flavour = ((k as usize + kind + i + n + handle as usize) % 5) as u8;
+                        wf.note = format!("{} fault HsmFailAt op={i} call={n} error={}", w.note, crate::seams::hsm_err_name(wf.knobs.hsm_err_flavour, n));
                         let rf = run_world(&wf);
                         o.evals += 1;
                         o.faults_planned += 1;
